@@ -25,7 +25,7 @@ type genMask struct {
 	Sel []int `json:"sel"`
 }
 type genOp struct {
-	Op    string  `json:"op"` // Update | Get | OpenPull | CloseStream
+	Op    string  `json:"op"` // Update | Get | OpenPull | CloseStream | Other
 	Uo    bool    `json:"uo"`
 	Name  int     `json:"name"`
 	Val   int     `json:"val"`
@@ -547,6 +547,21 @@ func (s *session) run(h genHist) {
 			}
 			s.streams = append(s.streams, ps)
 			o.Streams = append(o.Streams, sn)
+			o.Post = s.fullGet()
+		case "Other":
+			// another record of the collection holding the addressed record is deleted (which = 0) or (re)created
+			if s.st.other == nil {
+				continue // the server's triple does not address a record of a collection
+			}
+			o.Code, o.Panic = errCode(s.st.other(op.Which == 1))
+			if op.Which == 1 {
+				o.Note = "other record created"
+			} else {
+				o.Note = "other record deleted"
+			}
+			for _, ps := range s.streams {
+				o.Streams = append(o.Streams, s.snapshot(ps))
+			}
 			o.Post = s.fullGet()
 		case "CloseStream":
 			if len(s.streams) == 0 {
